@@ -1,18 +1,23 @@
 (* Run/C07: evaluation of the pipeline models and of the property on harness cases.
-   CCompile: one data file under one codec configuration.  The harness called the
-   implementation's codec line by line in one goroutine (lines: None = rejected;
-   acc, feat) and compiled the file with the real compilers under several settings
-   (runs: did it succeed, full dump key -> values).
+   CCompile: one data file (its BYTES) under one codec configuration.  The lines are
+   obtained here by the model of the line reader (Model/LineReader.v read_file); the
+   harness does not trim or skip anything for Coq: table holds the implementation's codec
+   output (None = rejected) for every '\n'-separated chunk of the file as it is, without a
+   trailing CR, and each of these without leading blanks, so that the form the model asks
+   for is there; a form that is missing makes the case fail.  nlines: how many lines the
+   harness's own reading of the file has (cross-check of the two readers).  acc, feat: the
+   accumulator and feature records; runs: the real compilers under several settings (did it
+   succeed, full dump key -> values).
    CBuckets: the builder's own sort + createBuckets on a key array.
    CVerdict: comparisons made by the harness in Go only (large files). *)
-From DnsV Require Export Model.Compile.
+From DnsV Require Export Model.Compile Model.LineReader.
 Open Scope N_scope.
 
 Definition dump := list (bytes * list bytes).
 Inductive mode := MBuilder | MBatches (bs : Z) | MCdb.
 Record run := mkrun { rmode : mode; rok : bool; rdump : dump }.
 Inductive case :=
-| CCompile (lines : list (option (list kv))) (acc feat : list kv) (ncpu : nat) (runs : list run)
+| CCompile (file : bytes) (table : list (bytes * option (list kv))) (nlines : N) (acc feat : list kv) (ncpu : nat) (runs : list run)
 | CBuckets (keys : list bytes) (minsz : N) (nb : nat) (panic : bool) (sorted : list bytes) (bks : list (N * N))
 | CVerdict (vs : list bool).
 
@@ -22,6 +27,23 @@ Fixpoint dlookup (d : dump) (k : bytes) : list bytes :=
 (* the codec of a case *)
 Definition line := option (list kv).
 Definition conv (l : line) : result (list kv) := match l with Some x => Ok x | None => Err E_CONV end.
+
+(* the codec output for the lines read_file delivers; None: a line is not in the table *)
+Fixpoint tlookup (t : list (bytes * option (list kv))) (l : bytes) : option line :=
+  match t with
+  | [] => None
+  | (a, o) :: r => if bytes_eqb a l then Some o else tlookup r l
+  end.
+Fixpoint resolve (t : list (bytes * option (list kv))) (ls : list bytes) : option (list line) :=
+  match ls with
+  | [] => Some []
+  | l :: r => match tlookup t l, resolve t r with
+              | Some x, Some xs => Some (x :: xs)
+              | _, _ => None
+              end
+  end.
+Definition lines_of (file : bytes) (t : list (bytes * option (list kv))) : option (list line) :=
+  resolve t (read_file file).
 
 Definition min_bucket_size : N := 30000.      (* rdb_builder.go minBucketSize *)
 
@@ -70,7 +92,11 @@ Fixpoint bks_eqb (a b : list (N * N)) : bool :=
 (* correspondence: the model computes what the implementation did *)
 Definition model_ok (c : case) : bool :=
   match c with
-  | CCompile lines acc feat ncpu runs => forallb (model_run_ok lines acc feat ncpu) runs
+  | CCompile file table nlines acc feat ncpu runs =>
+      match lines_of file table with
+      | None => false
+      | Some lines => (nlen lines =? nlines) && forallb (model_run_ok lines acc feat ncpu) runs
+      end
   | CBuckets keys minsz nb panic sorted bks =>
       sortedb sorted && perm_b sorted keys &&
       match create_buckets minsz nb sorted with
@@ -105,10 +131,14 @@ Definition spec_run_ok (ok : bool) (recs : list kv) (r : run) : bool :=
    fails every setting *)
 Definition spec_ok (c : case) : bool :=
   match c with
-  | CCompile lines acc feat _ runs =>
-      let ok := accepted line conv lines in
-      let recs := records line conv (fun _ => acc) feat lines in
-      forallb (spec_run_ok ok recs) runs
+  | CCompile file table _ acc feat _ runs =>
+      match lines_of file table with
+      | None => false
+      | Some lines =>
+          let ok := accepted line conv lines in
+          let recs := records line conv (fun _ => acc) feat lines in
+          forallb (spec_run_ok ok recs) runs
+      end
   | CBuckets keys minsz nb panic sorted bks =>
       if (1 <=? minsz) && (1 <=? N.of_nat nb) && negb (nlen keys =? 0)
       then negb panic && chain_ok sorted (nlen sorted) 0 bks && (length bks <=? nb)%nat
@@ -119,7 +149,8 @@ Definition spec_ok (c : case) : bool :=
 (* for replay files *)
 Definition model_out (c : case) :=
   match c with
-  | CCompile lines acc feat ncpu runs =>
+  | CCompile file table _ acc feat ncpu runs =>
+      let lines := match lines_of file table with Some x => x | None => [] end in
       let stream := records line conv (fun _ => acc) feat lines in
       (map (fun r => match rmode r with
                      | MBuilder => match compile_builder line conv kv_isort min_bucket_size ncpu lines stream with
